@@ -11,7 +11,7 @@
    pending bytes are lost), and an adversarial event list can keep every byte pending.  Each
    coded bit shifts out at most one byte, so the bound on the bit count excludes this.
    Proofs only. *)
-From LzVerif Require Import Base.Bytes Codec.Store Codec.Range Codec.ProbProofs Codec.RangeArith.
+From LzVerif Require Import Base.Bytes Codec.Store Codec.Range Codec.ProbProofs Codec.RangeArithProofs.
 From LzVerif Require Import Codec.LzmaDec Codec.LzmaEnc Codec.RangeEncProofs Codec.RangeDecProofs.
 Ltac Zify.zify_post_hook ::= Z.div_mod_to_equations.
 
@@ -297,3 +297,50 @@ Proof.
   destruct (renc_events renc_init t0 evs) as [e t1] eqn:E. cbn [fst snd] in *. subst t1'.
   exists d0, d1. tauto.
 Qed.
+
+(* ---------------------------------------------------------------------------------------------
+   why the bound on the number of coded bits is there: a state that satisfies every invariant
+   of the encoder (a run of 2^32 - 2 pending 0xFF bytes) on which shift_low wraps cache_size to
+   0, so that the pending bytes are never written.  (Rust, debug build: `self.cache_size += 1`
+   panics; release build: wraps as the model does.) *)
+Lemma renc_pending_state_inv s : 1 <= s -> renc_inv (mkRenc 4278190080 16777216 0 s []).
+Proof.
+  intros Hs. split; [|cbn [re_range]; lia].
+  assert (HP : 0 < 256 ^ (s - 1)) by (apply Z.pow_pos_nonneg; lia).
+  constructor; cbn [re_low re_range re_cache re_cache_size re_out]; [lia | lia | lia | lia | lia | reflexivity |].
+  unfold enc_V, enc_cap, enc_O, Vof. cbn [re_low re_range re_cache re_cache_size re_out le_value].
+  remember (256 ^ (s - 1)) as P eqn:EP. clear EP. lia.
+Qed.
+
+Lemma renc_cache_size_overflow_state :
+  let e := mkRenc 4278190080 16777216 0 4294967295 [] in
+  renc_inv e /\ re_cache_size (shift_low e) = 0 /\ re_out (shift_low e) = [].
+Proof.
+  cbv zeta. split; [apply renc_pending_state_inv; lia|].
+  split; vm_compute; reflexivity.
+Qed.
+
+(* ---------------------------------------------------------------------------------------------
+   non-vacuity: a small program, its trace, and the complete pipeline evaluated *)
+Definition rc_example_prog : prog (Z * Z * Z) :=
+  Bit 7 (fun b1 => Direct 5 (fun v => Bit 7 (fun b2 => Ret (b1, v, b2)))).
+Definition rc_example_evs : list event := [EBit 7 1; EDirect 5 19; EBit 7 0].
+
+Example rc_example_hyps :
+  probs_ok PLeaf /\ forallb ev_ok rc_example_evs = true /\ events_bits rc_example_evs <= RC_MAX_BITS /\
+  run_trace rc_example_prog rc_example_evs = Some (Ok (1, 19, 0), []).
+Proof. split; [exact probs_ok_empty|]. vm_compute. repeat split; congruence. Qed.
+
+Example rc_example_run :
+  let '(e, t1) := renc_events renc_init PLeaf rc_example_evs in
+  let bytes := renc_bytes (renc_finish e) in
+  bytes = [0; 203; 255; 254; 93] /\
+  match rdec_init (bytes ++ [1; 2; 3]) with
+  | Ok d0 =>
+      match run_rc rc_example_prog d0 PLeaf with
+      | Ok (a, d1, t1') => a = (1, 19, 0) /\ rd_in (rdec_normalize d1) = [1; 2; 3] /\ rd_code (rdec_normalize d1) = 0
+      | _ => False
+      end
+  | _ => False
+  end.
+Proof. vm_compute. repeat split; reflexivity. Qed.
